@@ -191,6 +191,30 @@ impl<'a> Sc<'a> {
         ok
     }
 
+    /// C09.R3 on a snapshot taken inside a round (see ForkWatch::sample_reported)
+    fn judge_snapshot(&mut self, w: &World, ci: usize, snap: &[(Script, ST, u64, Vec<refidx::TxRec>)]) {
+        let chain = &w.chains[ci];
+        let idx = refidx::build(chain, chain.tip());
+        for (s, st, n) in snap.iter().map(|(s, st, n, _)| (s, *st, *n)) {
+            let start = self.starts.get(&skey(s, st)).cloned().unwrap_or(0);
+            if n <= start {
+                continue;
+            }
+            let n = n.min(chain.tip());
+            let got = &snap.iter().find(|(a, b, _, _)| a == s && *b == st).unwrap().3;
+            self.out.eval(1);
+            self.out.count("reported_numbers_judged_inside_a_round", 1);
+            if let Some(truth) = idx.history.get(&(st, refidx::script_key(s))) {
+                for t in truth.iter().filter(|t| t.block > start && t.block <= n) {
+                    if !got.contains(t) && t.io_type != 0 {
+                        self.viol("C09.R3", "reported-number-ahead-of-index|matched-blocks-pending", json!({"when": "inside a round, after a BlockFilters message, matched blocks pending", "script": hex(s.as_slice()), "reported": n, "start": start, "missing": format!("{:?}", t)}), w);
+                        return;
+                    }
+                }
+            }
+        }
+    }
+
     /// C09.R3: a script reported as filtered up to n has everything in (start, n] indexed
     fn check_reported_numbers(&mut self, w: &World, ci: usize, when: &str) {
         let chain = &w.chains[ci];
@@ -282,6 +306,8 @@ fn scenario(kind: Kind, seed: u64, k: u64, out: &Out) {
     sc.actions.push(format!("set_scripts(all, {} scripts)", regs.len()));
     w.connect_all();
     let mut hook = ForkWatch::default();
+    hook.sample_reported = kind == Kind::C09;
+    hook.sample_tick = seed | 1;
     let n_actions = rng.range(1, 6);
     let mut forked = false;
     let mut long_fork = false;
@@ -292,6 +318,9 @@ fn scenario(kind: Kind, seed: u64, k: u64, out: &Out) {
         }
         if w.dead {
             break;
+        }
+        for snap in std::mem::take(&mut hook.snapshots) {
+            sc.judge_snapshot(&w, net.main, &snap);
         }
         let action = match kind {
             Kind::C03 => *rng.pick(&["fetch_tx", "fetch_tx", "fetch_header", "restart", "add_script", "grow"]),
